@@ -99,7 +99,20 @@ var (
 
 	// ErrSignatureEmpty is returned when signature is empty
 	ErrSignatureEmpty = errors.New("signature is empty")
+
+	// ErrSignerPubKeyMissing is returned when a signed header carries no public key.
+	ErrSignerPubKeyMissing = errors.New("signer public key is missing")
+
+	// ErrSignerAddressMismatch is returned when the signer's address is not the address of the public key it carries.
+	ErrSignerAddressMismatch = errors.New("signer address does not belong to the signer's public key")
 )
+
+// Validate performs the validation go-header applies to every header received from the network.
+// It must not be weaker than ValidateBasic: the embedded Header's Validate only looks at the proposer
+// address and would admit unsigned headers.
+func (sh *SignedHeader) Validate() error {
+	return sh.ValidateBasic()
+}
 
 // ValidateBasic performs basic validation of a signed header.
 func (sh *SignedHeader) ValidateBasic() error {
@@ -114,6 +127,16 @@ func (sh *SignedHeader) ValidateBasic() error {
 	// Check that the proposer address in the signed header matches the proposer address in the validator set
 	if !bytes.Equal(sh.ProposerAddress, sh.Signer.Address) {
 		return ErrProposerAddressMismatch
+	}
+
+	// The address is what nodes know the proposer by (genesis); the signature is checked against the
+	// public key carried in the header. Unless that key is the one the address was derived from,
+	// anybody could sign headers under the proposer's address with a key of their own.
+	if sh.Signer.PubKey == nil {
+		return ErrSignerPubKeyMissing
+	}
+	if !bytes.Equal(KeyAddress(sh.Signer.PubKey), sh.Signer.Address) {
+		return ErrSignerAddressMismatch
 	}
 
 	var (
